@@ -685,6 +685,22 @@ async fn run(prop: &'static str, _tier: Tier) {
     let alg = *sim::pick("cfg.alg", &[Algorithm::Sha256, Algorithm::Sha1, Algorithm::Sha384, Algorithm::Sha512]);
     let secret: Vec<u8> = (0..16 + sim::draw("key.secret_len", 48)).map(|i| (i as u8).wrapping_mul(29).wrapping_add(7)).collect();
     let key: Tk = Arc::new(Key::new(alg, &secret, KeyName::from_str("e2e-key.example.").unwrap(), None, None).expect("key"));
+    // One signed run in eight the callers hold a key the server does not
+    // share: the same name with another secret, or another name. Whatever
+    // the network does, none of their exchanges comes back as a success.
+    let wrong_key = signed && sim::chance("cfg.client_has_the_wrong_key", 1, 8);
+    let ckey: Tk = if wrong_key {
+        sim::stat("probe.client_key_not_shared_with_the_server");
+        let mut other = secret.clone();
+        other[0] ^= 0x55;
+        if sim::chance("cfg.wrong_key_name", 1, 2) {
+            Arc::new(Key::new(alg, &secret, KeyName::from_str("another-key.example.").unwrap(), None, None).expect("key"))
+        } else {
+            Arc::new(Key::new(alg, &other, KeyName::from_str("e2e-key.example.").unwrap(), None, None).expect("key"))
+        }
+    } else {
+        key.clone()
+    };
     let mode = if signed {
         *sim::pick("cfg.mode", &[Mode::Quiet, Mode::Lossy, Mode::Lossy, Mode::Hostile, Mode::Hostile])
     } else {
@@ -750,7 +766,7 @@ async fn run(prop: &'static str, _tier: Tier) {
     type Signed = ctsig::RequestMessage<Plain, Tk>;
     type SignedMulti = ctsig::RequestMessage<PlainMulti, Tk>;
     let conn: Rc<dyn SendRequest<Plain>> = match (kind, signed) {
-        (Kind::Dgram, true) => Rc::new(ctsig::Connection::new(key.clone(), dgram::Connection::with_config(mk_dg(), dg_cfg.clone()))),
+        (Kind::Dgram, true) => Rc::new(ctsig::Connection::new(ckey.clone(), dgram::Connection::with_config(mk_dg(), dg_cfg.clone()))),
         (Kind::Dgram, false) => Rc::new(dgram::Connection::with_config(mk_dg(), dg_cfg.clone())),
         (Kind::Stream, true) => {
             let s = match mk_st().connect_sim().await {
@@ -759,7 +775,7 @@ async fn run(prop: &'static str, _tier: Tier) {
             };
             let (c, t) = stream::Connection::<Signed, SignedMulti>::with_config(s, st_cfg.clone());
             tokio::spawn(t.run());
-            Rc::new(ctsig::Connection::new(key.clone(), c))
+            Rc::new(ctsig::Connection::new(ckey.clone(), c))
         }
         (Kind::Stream, false) => {
             let s = match mk_st().connect_sim().await {
@@ -773,7 +789,7 @@ async fn run(prop: &'static str, _tier: Tier) {
         (Kind::Multi, true) => {
             let (c, t) = multi_stream::Connection::<Signed>::with_config(mk_st(), ms_cfg.clone());
             tokio::spawn(t.run());
-            Rc::new(ctsig::Connection::new(key.clone(), c))
+            Rc::new(ctsig::Connection::new(ckey.clone(), c))
         }
         (Kind::Multi, false) => {
             let (c, t) = multi_stream::Connection::<Plain>::with_config(mk_st(), ms_cfg.clone());
@@ -784,7 +800,7 @@ async fn run(prop: &'static str, _tier: Tier) {
             let cfg = dgram_stream::Config::from_parts(dg_cfg.clone(), ms_cfg.clone());
             let (c, t) = dgram_stream::Connection::<_, Signed>::with_config(mk_dg(), mk_st(), cfg);
             tokio::spawn(t.run());
-            Rc::new(ctsig::Connection::new(key.clone(), c))
+            Rc::new(ctsig::Connection::new(ckey.clone(), c))
         }
         (Kind::DgramStream, false) => {
             let cfg = dgram_stream::Config::from_parts(dg_cfg.clone(), ms_cfg.clone());
@@ -854,6 +870,15 @@ async fn run(prop: &'static str, _tier: Tier) {
     }
     sim::sync_clock();
     if sim::over_cap() || sim::stopped() {
+        return;
+    }
+    if wrong_key {
+        for (key, out) in &led.borrow().results {
+            if let Outcome::Ok(bytes) = out {
+                sim::violation(prop, "soundness", "exchange-succeeded-with-a-key-the-server-does-not-share".to_string(), format!("{}: the caller signs with a key the server does not hold, and got {} octets back as a verified response", key, bytes.len()));
+                return;
+            }
+        }
         return;
     }
     if !check_queries(prop, &led, mode) {
